@@ -337,6 +337,12 @@ pub fn run_scenario(sc: &Value, top: &Path) -> Value {
                     }
                     cs.into_iter().collect()
                 }
+                else if sc["rooted_rep"].as_bool().unwrap_or(false) {
+                    // rooted_rep: the root and the first component are written as a repetition (</verif:1,2>/..):
+                    // the glob is rooted through a repetition, its invariant prefix is the root alone
+                    let cut = abs[1..].find('/').map_or(abs.len(), |i| i + 1);
+                    format!("<{}:1,2>{}", &abs[..cut], &abs[cut..])
+                }
                 else {
                     abs
                 };
@@ -357,14 +363,26 @@ pub fn run_scenario(sc: &Value, top: &Path) -> Value {
             let g2 = glob.clone().into_owned();
             let strip2 = strip.clone();
             let given2 = given.clone();
-            let blocks = drive(glob.walk_with_behavior(given, behavior), &slots, &strip, move |e: &GlobEntry| {
+            let describe = move |e: &GlobEntry| {
                 let mut f = entry_facts(e, &strip2, &given2);
                 let rel = e.root_relative_paths().1.to_string_lossy().into_owned();
                 f["matched"] = json!(cps(e.matched().complete()));
                 f["candidate"] = json!(cps(e.to_candidate_path().as_ref()));
                 f["is_match_rel"] = json!(g2.is_match(rel.as_str()));
                 f
-            });
+            };
+            // confine: the walk starts at the root of the file system and cannot prune by component; everything
+            // that is neither an ancestor nor a descendant of the scratch directory is discarded as a tree
+            let blocks = if sc["confine"].as_bool().unwrap_or(false) {
+                let keep = strip.clone();
+                let confined = glob.walk_with_behavior(given, behavior).filter_entry(move |e| {
+                    if keep.starts_with(e.path()) || e.path().starts_with(&keep) { None } else { Some(EntryResidue::Tree) }
+                });
+                drive(confined, &slots, &strip, describe)
+            }
+            else {
+                drive(glob.walk_with_behavior(given, behavior), &slots, &strip, describe)
+            };
             json!({"blocks": blocks, "glob_text": cps(&text),
                    "glob_root": format!("{:?}", glob.has_root()), "given": cps(&base.to_string_lossy())})
         }
